@@ -1,8 +1,8 @@
 (* C14: the compile-now / stub / raise decision of the builders and the arguments of the stub's re-build are the
    ones of the source (kernel K114a, translated from builder.py on every run). *)
 From Coq Require Import List Arith Bool ZArith.
-From Verif Require Import Regex PyK LazyModel LazyProofs LazyK114a LazyK114b LazyPostpone.
-From VerifGen Require Import K114a K114b.
+From Verif Require Import Regex PyK LazyModel LazyProofs LazyK114a LazyK114b LazyK114c LazyPostpone.
+From VerifGen Require Import K114a K114b K114c.
 Import ListNotations.
 Close Scope Z_scope.
 Open Scope nat_scope.
@@ -101,6 +101,34 @@ Example C14_apc_false_fails_at_creation :
     [Out (Node 0 (MN false 0 false 0) None []); Out (Node 1 (MN false 0 false 0) None []);
      Out (Node 0 (MN true 0 false 0) None [])].
 Proof. split; [exact (proj1 apc_false_fails_at_creation)|exact apc_false_lazy_still_postpones]. Qed.
+
+(* ---- installation of a generated method (add_(un)pack_method / _add_setattr_method, kernel K114c) ---- *)
+Theorem C14_source_install_tests : forall pack dsup d,
+  src_creates_cache pack dsup = Some dsup /\
+  src_dialect_branch pack dsup d = Some (dsup && match d with None => true | Some _ => false end) /\
+  src_setattr_kind d = Some (match d with None => 0%Z | Some _ => 2%Z end).
+Proof. intros; split; [apply src_creates_cache_eq|split; [apply src_dialect_branch_eq|apply src_setattr_kind_eq]]. Qed.
+Print Assumptions C14_source_install_tests.
+
+(* LazyModel.install: the dialect cache is created iff the source emits the creating line, the method goes to the class
+   attribute for a default build and into the cache for a dialect-specific build *)
+Theorem C14_install_follows_source : forall F st c m d x,
+  install F st c m d x =
+  let st1 := match src_creates_cache (m_pack m) (c_dsup (cls F c)) with
+             | Some true => ensure_cache st c m
+             | _ => st
+             end in
+  match src_setattr_kind d, d with
+  | Some 0%Z, _ => (set_slot st1 c m x, None)
+  | Some 2%Z, Some dd =>
+      match get_cache st1 c m with
+      | Some _ => (cache_store st1 c m dd x, None)
+      | None => (st1, Some EAttrCache)
+      end
+  | _, _ => (st1, Some EAttrCache)
+  end.
+Proof. exact install_follows_source. Qed.
+Print Assumptions C14_install_follows_source.
 
 (* ---- class creation and Config.allow_postponed_evaluation (LazyPostpone.v) ---- *)
 
